@@ -35,7 +35,7 @@ type seqCase struct {
 	Excluded []string  `json:"excluded,omitempty"`
 }
 
-var seqPart = pbt.Part[seqCase]{Name: "sequences", Quick: 3200, Thorough: 40000, Gen: genSeqCase, Check: checkSeqCase}
+var seqPart = pbt.Part[seqCase]{Name: "sequences", Quick: 2800, Thorough: 40000, Gen: genSeqCase, Check: checkSeqCase}
 
 // ---- values for variables ---------------------------------------------------------------------
 
